@@ -58,7 +58,7 @@ func Build(c *wgen.ExecCase, cfgMod func(*wref.Config), extraDiscard ...func(*wr
 		}
 		return nil, nil, "", err
 	}
-	if d := res.Ev.OutOfDomain(); d != "" {
+	if d := res.Ev.OutOfDomainPolicy(cfg.ClampOOB || cfg.ZeroOOBReads); d != "" {
 		return nil, res, d, nil
 	}
 	for _, f := range extraDiscard {
